@@ -39,7 +39,9 @@ IntroChecks ==
   THEN Report("c27-wellformed", [path |-> r.path, err |-> r.py_err,
                                  devs |-> IF SubtreeHasBadDoc(prog, r.segs) THEN <<"doc_comment_unescaped">> ELSE <<>>])
   ELSE
-    /\ (r.zx_ok \/ Report("c27-zbus-xml-readback", [path |-> r.path, err |-> r.zx_err, devs |-> <<>>]))
+    /\ (r.zx_ok \/ Report("c27-zbus-xml-readback",
+                           [path |-> r.path, err |-> r.zx_err, child_elements |-> ChildNodeElems(r.py),
+                            devs |-> IF ReadbackLimitCanApply(r.py) THEN <<"readback_event_limit">> ELSE <<>>]))
     /\ (~r.zx_ok \/ r.zx = r.py \/ Report("c27-zbus-xml-differs", [path |-> r.path, devs |-> <<>>]))
     /\ LET faults == NodeFaults(prog, r.py, r.segs) IN
        \A f \in faults : Report(f, [path |-> r.path, devs |-> <<>>])
@@ -48,6 +50,7 @@ IntroChecks ==
          LET d == r.docs[i] IN
          (~IsGenerated(prog, d.iface) \/ d.member \notin DOMAIN ExpDocs(ShapeNamed(prog, d.iface))
             \/ ExpDocs(ShapeNamed(prog, d.iface))[d.member] = d.lines
+            \/ ExpDocs(ShapeNamed(prog, d.iface))[d.member] \in BadDocs   \* cut short by its own "-->" (known finding)
             \/ Report("drift-doc-text", [iface |-> d.iface, member |-> d.member]))
 
 WireMethodChecks ==
